@@ -135,7 +135,7 @@ func (b *Box) getOrCreateMessagesByTopic(topic []byte) *storedMessages {
 
 	messages, exists = b.pendingMessages[string(topic)]
 	if !exists {
-		messages = &storedMessages{messageCountPerSender: make(map[uint16]int)}
+		messages = &storedMessages{messageCountPerSender: make(map[uint16]int), lastUsed: time.Now()}
 	}
 
 	b.pendingMessages[string(topic)] = messages
